@@ -227,7 +227,14 @@ def run(ctx):
                    (lambda: schema.int(1).min(1), lambda: schema.int(True).min(True)),
                    (lambda: schema.int.min(0), lambda: schema.int.min(False)), (lambda: schema.int.max(1), lambda: schema.int.max(True)),
                    (lambda: schema.list.len(1), lambda: schema.list.len(True)), (lambda: schema.str.len(0), lambda: schema.str.len(False)),
-                   (lambda: schema.float.precision(1), lambda: schema.float.precision(True))]
+                   (lambda: schema.float.precision(1), lambda: schema.float.precision(True)),
+                   # the same keys declared in another order, the `...: ...` marker at another position (declared so, or by +)
+                   (lambda: schema.dict({"id": schema.int, ...: ...}), lambda: schema.dict({...: ..., "id": schema.int})),
+                   (lambda: schema.dict({"a": schema.int, "b": schema.str}), lambda: schema.dict({"b": schema.str, "a": schema.int})),
+                   (lambda: schema.dict({"id": schema.int, "n": schema.str, ...: ...}),
+                    lambda: schema.dict({"id": schema.int, ...: ...}) + schema.dict({"n": schema.str})),
+                   (lambda: schema.dict({optional("o"): schema.int, ...: ..., "r": schema.none}),
+                    lambda: schema.dict({"r": schema.none, optional("o"): schema.int, ...: ...}))]
     twins = []
     for ma, mb in twin_makers:
         try:
@@ -236,7 +243,8 @@ def run(ctx):
             ctx.count("twin_pairs_not_declarable")
     wraps = [lambda t: t, lambda t: schema.list([t, ...]), lambda t: schema.dict({optional("k"): t, ...: ...}),
              lambda t: schema.any(t, schema.str), lambda t: schema.dict({"a": schema.list(schema.any(t, schema.none))})]
-    inner_probes = [1, True, 0, False, 1.0, 0.0, 2, "1", None, [], [1], [True], ""]
+    inner_probes = [1, True, 0, False, 1.0, 0.0, 2, "1", None, [], [1], [True], "", {}, {"id": 1}, {"id": "x"}, {"id": 1, "n": 2},
+                    {"a": 1, "b": "s"}, {"a": "s", "b": 1}, {"r": None}, {"r": 1, "o": 1}, {"o": "x", "r": None}, {"id": 1, "n": "s", "z": 0}]
     for a0, b0 in twins:
         for wi, wr in enumerate(wraps):
             try:
